@@ -13,7 +13,7 @@ Correspondence
     (op `smallbox F`).
 Oracle (independent of the model): exact Fraction half-plane tests, strict left turns, vertices are
 input points, start/closing vertex is the lexicographic minimum, extreme points by brute force,
-re-computation of the separation loop from the unmerged hull; for sky objects: every source inside
+the min_separation clause itself (result is a sub-sequence of the unmerged hull with the same first/closing vertex, no two consecutive vertices within the separation, nothing removed needlessly, removed vertices near a kept one); for sky objects: every source inside
 the polygon (or within a rounding margin of its boundary), polygon area against the area of an
 independently computed hull (scipy/qhull in a gnomonic chart), size of the 1- and 2-source boxes,
 intersection areas symmetric and bounded by both footprints.
@@ -110,13 +110,42 @@ def close_cheb(a, b, sep):
     return abs(a[0] - b[0]) <= sep and abs(a[1] - b[1]) <= sep
 
 
-def merge_expected(h0, sep):
-    """the documented separation loop applied to the unmerged hull: an interior vertex is removed when
-    both coordinates are within `sep` of its successor; the first and the closing vertex stay"""
-    n = len(h0)
-    if n < 3:
-        return list(h0)
-    return [h0[0]] + [h0[k] for k in range(1, n - 1) if not close_cheb(h0[k], h0[k + 1], sep)] + [h0[-1]]
+def is_subsequence(h, h0):
+    it = iter(h0)
+    return all(any(v == w for w in it) for v in h)
+
+
+def merge_property(H0, H, sep):
+    """the property clause itself, on the unmerged hull H0 and the result H for the separation `sep`
+    (exact numbers): consecutive vertices closer than min_separation are merged.  List of failures.
+      * H is a sub-sequence of H0 that starts and closes at the same (lexicographically smallest) vertex;
+      * no two consecutive vertices of H are within `sep` in both coordinates, unless H is the degenerate
+        [v0, v0] (everything merged into the first vertex);
+      * nothing is removed when no two consecutive vertices of H0 are within `sep`;
+      * a removed vertex is within `sep` of a kept vertex, or (when the vertex it was merged into was itself
+        merged into the first vertex) within 2*sep of the first vertex."""
+    bad = []
+    if len(H0) < 3:
+        return bad if list(H) == list(H0) else ['separation loop changed a hull of fewer than 3 entries']
+    if len(H) < 2 or H[0] != H0[0] or H[-1] != H0[-1]:
+        return ['merging removed the first or the closing vertex']
+    if not is_subsequence(H, H0):
+        bad.append('the merged hull is not a sub-sequence of the unmerged hull')
+    if not (len(H) == 2 and H[0] == H[1]):
+        for i in range(len(H) - 1):
+            if close_cheb(H[i], H[i + 1], sep):
+                bad.append('consecutive vertices %d and %d of the result are within min_separation' % (i, i + 1))
+                break
+    if not any(close_cheb(H0[i], H0[i + 1], sep) for i in range(len(H0) - 1)) and list(H) != list(H0):
+        bad.append('a vertex was removed although no two consecutive vertices are within min_separation')
+    kept = set(H)
+    for v in H0:
+        if v in kept or any(close_cheb(v, w, sep) for w in kept) or close_cheb(v, H0[0], 2 * sep):
+            continue
+        bad.append('a removed vertex is neither within min_separation of a kept vertex nor within twice that '
+                   'of the first vertex')
+        break
+    return bad
 
 
 def oracle_raw_hull(P, H):
@@ -292,31 +321,9 @@ def hull_case(ctx, fam, pts, sep, kind, lines, pending):
                 ctx.oracle_fail(case, {'what': b, 'hull': res0[1]})
         if res[0] == 'ok' and sep is not None:
             H = [(to_fraction(a), to_fraction(b)) for a, b in res[1]]
-            exp = merge_expected(H0, to_fraction(sep))
-            merged_something = len(exp) != len(H0)
-            if H != exp:
-                ctx.oracle_fail(case, {'what': 'min_separation loop: result differs from "drop an interior '
-                                               'vertex iff both coordinates are within min_separation of its '
-                                               'successor; keep first and closing vertex"',
-                                       'got': res[1], 'expected': [[float(a), float(b)] for a, b in exp]})
-            if H and (H[0] != H0[0] or H[-1] != H0[-1]):
-                ctx.oracle_fail(case, {'what': 'merging removed the first or the closing vertex', 'got': res[1]})
-            # the clause as the property words it: afterwards no two adjacent vertices are within the
-            # separation.  Recorded finding F17: the loop never tests the pair (0, 1) and tests vertex k
-            # against its ORIGINAL successor, so a kept vertex can end up next to a later one within the
-            # separation.  Only these two classes are attributed to F17.
-            if sep > 0 and len(H) > 2:
-                sq = to_fraction(sep)
-                for i in range(len(H) - 1):
-                    if close_cheb(H[i], H[i + 1], sq):
-                        adjacent_before = any(H0[j] == H[i] and H0[j + 1] == H[i + 1] for j in range(len(H0) - 1))
-                        det = {'what': 'adjacent vertices %d and %d of the result are within min_separation' % (i, i + 1),
-                               'got': res[1], 'unmerged': res0[1]}
-                        if i == 0 or not adjacent_before:
-                            det['finding'] = 'F17'
-                            ctx.branch('F17:' + ('pair01' if i == 0 else 'skipped-run'))
-                        ctx.oracle_fail(case, det)
-                        break
+            merged_something = len(H) != len(H0)
+            for bmsg in merge_property(H0, H, to_fraction(sep)):
+                ctx.oracle_fail(case, {'what': 'min_separation: ' + bmsg, 'got': res[1], 'unmerged': res0[1]})
         elif res[0] == 'ok' and sep is None and res[1] != res0[1]:
             ctx.oracle_fail(case, {'what': 'result depends on the container type of the input',
                                    'got': res[1], 'list-input': res0[1]})
@@ -1006,32 +1013,15 @@ def probes(ctx, rec, lines, pending):
         pra, pdec = gc.det_to_world(np.array(xs), np.array(ys))
         check_polygon_sources(ctx, case, 'image without bounding box', wic.polygon, np.atleast_1d(pra),
                               np.atleast_1d(pdec))
-    # F17 (open): min_separation loop never tests the pair (0, 1) and tests against the ORIGINAL successor
+    # F17 (fixed): the min_separation loop never tested the pair (0, 1), compared each vertex with its ORIGINAL
+    # successor and could delete or keep runs wrongly; regression witnesses (the last one shows that a removed
+    # vertex may be up to 2*sep from the first vertex: (1.6,-0.6) -> (1,0.3) -> (0,0))
     from tweakwcs.wcsimage import convex_hull
-    pts = [(0.0, 0.0), (0.01, -0.005), (10.0, 5.0), (0.0, 5.0)]
-    case = {'op': 'hull', 'probe': 'F17', 'points': [list(p) for p in pts], 'min_separation': 0.1}
-    ctx.case(case, nontrivial=True, branch='probe:F17')
-    hx, hy = convex_hull([p[0] for p in pts], [p[1] for p in pts], min_separation=0.1)
-    H = list(zip(hx, hy))
-    if any(close_cheb(H[i], H[i + 1], 0.1) for i in range(len(H) - 1)) and len(H) > 2:
-        ctx.oracle_fail(case, {'what': 'vertices 0 and 1 are closer than min_separation and both are kept (the loop '
-                                       'stops at k = 1 and compares k with k + 1 only)', 'hull': [list(h) for h in H],
-                               'finding': 'F17'})
-    else:
-        ctx.note('finding F17 no longer reproduces on its witness')
-    # second class of F17: hull [v0, a, b, c, v0]; b is removed (close to c), a is kept (not close to b) and ends
-    # up next to c, which is within the separation
-    pts = [(-10.0, 0.5), (0.0, 0.0), (1.05, 0.3), (0.95, 1.0)]
-    case = {'op': 'hull', 'probe': 'F17', 'points': [list(p) for p in pts], 'min_separation': 1.0}
-    ctx.case(case, nontrivial=True, branch='probe:F17')
-    hx, hy = convex_hull([p[0] for p in pts], [p[1] for p in pts], min_separation=1.0)
-    H = list(zip(hx, hy))
-    if len(H) > 2 and any(close_cheb(H[i], H[i + 1], 1.0) for i in range(len(H) - 1)):
-        ctx.oracle_fail(case, {'what': 'after the removal of a vertex its kept predecessor is within min_separation of '
-                                       'its successor (each vertex is compared with its ORIGINAL successor only)',
-                               'hull': [list(h) for h in H], 'finding': 'F17'})
-    else:
-        ctx.note('finding F17 (second class) no longer reproduces on its witness')
+    for pts, sp in (([(0.0, 0.0), (0.01, -0.005), (10.0, 5.0), (0.0, 5.0)], 0.1),
+                    ([(-10.0, 0.5), (0.0, 0.0), (1.05, 0.3), (0.95, 1.0)], 1.0),
+                    ([(0.0, 0.0), (1.0, 0.0), (0.0, 1.0)], 1.0),
+                    ([(0.0, 0.0), (1.6, -0.6), (1.0, 0.3), (0.1, 1.5)], 1.0)):
+        hull_case(ctx, 'probe-F17', pts, sp, 'list', lines, pending)
     # F18 (fixed 28d96d5): image catalog with >= 3 exactly collinear sources keeps the whole-image footprint
     xs = np.array([10.0, 20.0, 30.0, 40.0])
     case = {'op': 'image', 'probe': 'F18', 'x': xs.tolist(), 'y': (2 * xs + 1).tolist()}
